@@ -19,6 +19,15 @@ def Fm.eval (w : World) : Fm → Bool
   | .and a b => a.eval w && b.eval w
   | .or a b => a.eval w || b.eval w
 
+/-- atom `i` occurs in the formula -/
+def Fm.mentions : Fm → Nat → Bool
+  | .top, _ => false
+  | .bot, _ => false
+  | .atom j, i => i == j
+  | .neg a, i => a.mentions i
+  | .and a b, i => a.mentions i || b.mentions i
+  | .or a b, i => a.mentions i || b.mentions i
+
 def allWorlds : Nat → List World
   | 0 => [[]]
   | n+1 => (allWorlds n).flatMap fun w => [false :: w, true :: w]
